@@ -3,6 +3,7 @@ package main
 import (
 	"fmt"
 	"os"
+	"os/signal"
 	"path/filepath"
 	"strconv"
 	"strings"
@@ -71,7 +72,9 @@ func sum(xs []int) int {
 }
 
 // ---------------------------------------------------------------------------------------------- area wf
-// wf <old> <umask> <mode> <pieces> <fault>   fault: none | cb:<j> | rename:DIR (old must be "dir")
+// wf <old> <umask> <mode> <pieces> <fault> <cbmode>
+//    fault: none | cb:<j> | rename:DIR (old must be "dir") | write:<k>:EFBIG (write(2) number k fails: RLIMIT_FSIZE is
+//    set to the size the temporary file has when that call starts, SIGXFSZ ignored);  cbmode: p | s | k
 // -> res=<code> dst=<state> extra=<n> mid=<i:size,…|-> reader=<ok|BAD:…>
 type wfArea struct{}
 
@@ -80,21 +83,27 @@ func (wfArea) Gen(r *hx.Rng, n int, _ string, emit func(string)) {
 		old := genOld(r)
 		pieces := genPieces(r)
 		fault := "none"
-		switch r.Intn(6) {
+		switch r.Intn(8) {
 		case 0, 1:
 			fault = "cb:" + strconv.Itoa(r.Intn(len(parsePieces(pieces))+1))
 		case 2:
 			old, fault = "dir", "rename:DIR"
+		case 3, 4:
+			if nw := len(chunkSizes("wf", parsePieces(pieces))); nw > 0 {
+				fault = "write:" + strconv.Itoa(r.Intn(nw+r.Intn(2))) + ":EFBIG"
+			}
 		}
-		emit("wf " + old + " " + hx.Pick(r, umasks) + " " + hx.Pick(r, modes) + " " + pieces + " " + fault)
+		emit("wf " + old + " " + hx.Pick(r, umasks) + " " + hx.Pick(r, modes) + " " + pieces + " " + fault + " " +
+			hx.Pick(r, []string{"p", "s", "k"}))
 	}
 }
 
 func (wfArea) Run(line string) string {
 	f := strings.Fields(line)
-	if len(f) != 6 || f[0] != "wf" {
+	if len(f) != 7 || f[0] != "wf" {
 		return "bad-op"
 	}
+	cbMode := f[6]
 	old, um, mode, pieces, fault := parseOld(f[1]), octal(f[2]), octal(f[3]), parsePieces(f[4]), f[5]
 	dir, dst := setup(old)
 	defer os.RemoveAll(dir)
@@ -132,7 +141,16 @@ func (wfArea) Run(line string) string {
 			midBad = "BAD:dst-changed-during-callback:" + s
 		}
 	}
-	err := perform("wf", dst, mode, pieces, cbFail, after)
+	restore := func() {}
+	if strings.HasPrefix(fault, "write:") {
+		cs := chunkSizes("wf", pieces)
+		k := atoi(strings.Split(fault, ":")[1])
+		if k < len(cs) {
+			restore = limitFileSize(uint64(sum(cs[:k])))
+		}
+	}
+	err := perform("wf", dst, mode, pieces, cbFail, cbMode, after)
+	restore()
 	rs := rd.finish()
 	m := "-"
 	if midBad != "" {
@@ -264,4 +282,22 @@ func (a *apiArea) Run(line string) string {
 		return a.obs(resCode(a.f.File.Close()))
 	}
 	return "bad-op"
+}
+
+// limitFileSize makes every write beyond n bytes of any regular file fail with EFBIG (like a full disk) until the
+// returned function is called.
+func limitFileSize(n uint64) func() {
+	signal.Ignore(syscall.SIGXFSZ)
+	var saved syscall.Rlimit
+	if err := syscall.Getrlimit(syscall.RLIMIT_FSIZE, &saved); err != nil {
+		panic(err)
+	}
+	if err := syscall.Setrlimit(syscall.RLIMIT_FSIZE, &syscall.Rlimit{Cur: n, Max: saved.Max}); err != nil {
+		panic(err)
+	}
+	return func() {
+		if err := syscall.Setrlimit(syscall.RLIMIT_FSIZE, &saved); err != nil {
+			panic(err)
+		}
+	}
 }
